@@ -4479,9 +4479,9 @@ def get_cnf(t: Term) -> Term:
             A, B = t.arg.lhs, t.arg.rhs
             return get_cnf(Or(And(A, Not(B)), And(B, Not(A))))
         elif logic.is_if(t.arg) and t.arg.args[1].get_type() == BoolType:
-            # ~(if P then Q else R) becomes (P & ~Q) | (~P & R)
+            # ~(if P then Q else R) becomes (P & ~Q) | (~P & ~R)
             P, Q, R = t.arg.args
-            return get_cnf(Or(And(P, Not(Q)), And(Not(P), R)))
+            return get_cnf(Or(And(P, Not(Q)), And(Not(P), Not(R))))
         else:
             return t
     elif t.is_disj():
